@@ -20,7 +20,10 @@ pub fn parse_rootdefinition_enum(
         let (value, ty) = if let Some(expr) = &member.value {
             let mut expr_ir = parse_expr(expr, context)?;
 
+            // The value is recorded with the type of the evaluated constant
+            // This has neither the modifiers of a named constant nor the enum type of another enum value
             let unmodified_id = context.module.type_registry.remove_modifier(expr_ir.1.0);
+            let mut value_ty = unmodified_id;
             match context.module.type_registry.get_type_layer(unmodified_id) {
                 ir::TypeLayer::Scalar(ir::ScalarType::Bool)
                 | ir::TypeLayer::Scalar(ir::ScalarType::IntLiteral)
@@ -37,7 +40,8 @@ pub fn parse_rootdefinition_enum(
                         &mut context.module,
                     )
                     .unwrap();
-                    expr_ir.0 = cast.apply(expr_ir.0, &mut context.module)
+                    expr_ir.0 = cast.apply(expr_ir.0, &mut context.module);
+                    value_ty = underlying_type;
                 }
                 _ => {
                     // Other types are not allowed
@@ -49,7 +53,7 @@ pub fn parse_rootdefinition_enum(
                 Ok(value) => value,
                 Err(_) => return Err(TyperError::ExpressionIsNotConstantExpression(expr.location)),
             };
-            (evaluated, expr_ir.1.0)
+            (evaluated, value_ty)
         } else {
             match last_value {
                 None => (
